@@ -17,21 +17,32 @@ META = {
     'technique': 'Coq proof (structural induction over the universal value type) on a hand-written Gallina model of '
                  'dumpers.py + regenerated hook registry + differential correspondence with the implementation',
     'design_ref': 'DESIGN.md section 4 C03',
-    'theorems': ['C03_hooks_table', 'C03_encoding', 'C03_encoding_total', 'C03_json_safe', 'C03_fresh', 'C03_z_suffix'],
-    'tables': ['CoreDumpHooks'],
+    'theorems': ['C03_hooks_table', 'C03_encoding', 'C03_encoding_total', 'C03_json_safe', 'C03_fresh', 'C03_z_suffix',
+                 'C03_bind_order_table', 'C03_bind_sequences', 'C03_meta_dumper_agree', 'C03_explicit_transform_wins_partial',
+                 'C03_implicit_transform_default', 'C03_effective_config_partial', 'C03_configured_encoding_partial',
+                 'C03_finding_regions_exact', 'C03_configured_encoding_refuted'],
+    'tables': ['CoreDumpHooks', 'CoreDumpBindOrder'],
     'level_text': ('Theorems proved in Coq for ALL well-formed values (any nesting, any runtime types, any annotation incl. Any), '
                    'all five key transforms and both marshal_date_time_as modes, about an executable model of _asdict_inner / '
                    'DumpMixin / cls_asdict instantiated with the hook registry regenerated from the source: the dispatch machinery '
                    'returns exactly the documented encoding, the result is JSON-safe and shares no container with the input. '
                    'The model is re-validated against asdict on every run (every leaf type x every container position to depth 3, '
                    'then random class models), and the statement is also tested directly on the implementation against an '
-                   'independent reference encoder.'),
+                   'independent reference encoder. WHICH configuration is in force is modelled too (coq/model/CoreDumpConfig.v): the '
+                   'class-definition-time pipeline (JSONWizard / JSONPyWizard __init_subclass__, key_case, inner Meta, inner Meta of the base class, '
+                   'DumpMeta/LoadMeta.bind_to, `_META[cls] &= meta`) as a fold of bind_to over the sequence of binds of a declaration, with the step '
+                   'order regenerated from the source; theorems by induction over ALL bind sequences and for ALL declaration forms x settings: the '
+                   'explicitly configured transform wins over the implicit default of the base, the whole effective configuration is the documented '
+                   'one outside the exact regions of two new open findings (F93, F94), and the end-to-end encoding theorem quantifies over declaration '
+                   'forms. Every declaration form x setting is run as generated class source text in its own fresh interpreter on every run.'),
     'level_note': ('Trusted: Coq kernel + vm_compute; the hand-written model; token values carry the answers of the stdlib '
                    'functions the library calls (isoformat, hex, str, timestamp, b64encode) as computed by the real functions. '
                    'Instance-unchanged and id-disjointness are carried by the correspondence/direct predicates only (a pure model '
                    'cannot mutate). exclude/skip_defaults/skip_if/paths/catch-all are outside this model (C11, C08, C10). '
                    'Dict keys that collide after dumping are not modelled (generators avoid them). CatchAll classes are checked by the direct '
-                   'predicates only. Histories are limited to the default key spelling: a nested class dumped alone caches its own spelling (open finding F10, C07).'),
+                   'predicates only. Histories are limited to the default key spelling: a nested class dumped alone caches its own spelling (open finding F10, C07). '
+                   'Configuration pipeline: one level of user-class inheritance (parent declared on the wizard base, not re-bound after its definition), inner Meta '
+                   'derived from JSONWizard.Meta directly, no module-level Meta, binds before the first dump; Meta of nested classes / the cascade is C12.'),
     'rule': ('systematic: every leaf type (19) x every container position (19 contexts incl. TypedDict optional keys, explicit and auto-assigned tagged unions) '
              'to depth 3, packed into classes of <= 10 fields, one conforming value per field (quick: a seed-rotated third of the depth-3 positions; thorough: all) '
              '+ random class models (quick 120, thorough 2500) + 30 sub-minute-offset cases + CatchAll classes (quick 30, thorough 300; direct predicates only), '
@@ -43,8 +54,15 @@ META = {
              'negative, sub-minute, IANA zones; huge ints, nan/inf, a 45-string zoo of line endings / control chars / unicode planes / look-alikes; Optional and Union elements laid out '
              'None-first / None-in-the-middle / complex-first; RUNTIME SUBCLASSES of every hooked type (str, int, float, list, tuple, set, frozenset, deque, dict, defaultdict, OrderedDict, '
              'datetime, date, time, timedelta, Decimal, UUID, Path) at annotated, container and Any positions - direct predicates only), HISTORIES (half of the class models with nested dataclasses dump every nested instance ON ITS OWN '
-             'before the owner\'s first dump). Non-trivial: the field type has at least one container/union/class layer or a non-JSON leaf. Distinct: distinct (type label | value digest).'),
+             'before the owner\'s first dump). DECLARATION FORMS (how the configuration in force is determined): stream A - every base (plain, JSONWizard, JSONSerializable, JSONPyWizard) x '
+             '{no config; inner Meta with each of the 5 transforms / empty / date mode / tag key; base class with inner Meta (each transform) / without; key_case x 4; bind_to once (each transform, '
+             'DumpMeta(key_transform=) / (key_transform_with_dump=) / LoadMeta) / twice / followed by an unrelated bind; inner Meta then bind_to; own + inherited Meta disjoint / equal / overridden by a later bind; '
+             'the F93 / F94 regions} + a random product sample (quick 110, thorough 1500), value spelling x Meta class name x Meta base rotated; ONE FRESH INTERPRETER PER DECLARATION, class source text at module level; '
+             'stream B - 40% of the systematic and random class models without a history declare their root through a declaration form documenting the case\'s configuration. Non-trivial: the field type has at least one container/union/class layer or a non-JSON leaf. Distinct: distinct (type label | value digest).'),
     'trusted_base': ['model coq/model/CoreDump.v (dispatch by exact type, dataclass/namedtuple tests, isinstance scan, encoders, cls_asdict keys/tag)',
+                     'model coq/model/CoreDumpConfig.v (bind_to restricted to key transform / date mode / tag key, `&=` merge, sequence of binds of a declaration); '
+                     'its step order is NOT trusted: harness/tables/CoreDumpBindOrder.py reads it from the AST of serial_json.py / class_helper.py (fail-closed) and C03_bind_order_table pins it',
+                     'harness/impl/c03_decl.py prints declarations as class source text; harness/props/c03.py `documented` is the independent statement of the documented priority',
                      'harness/impl/core_rt.py prints real objects as Gallina terms and as the canonical text compared with the model'],
     'assumptions': ['stdlib leaf functions (isoformat, UUID.hex, str(Decimal/Path/timedelta), timestamp, b64encode) are oracles: their '
                     'answers are carried in the value tokens',
@@ -98,6 +116,335 @@ def in_f57(c):
 
 def nontrivial_type(ty):
     return ty['t'] not in ('bool', 'int', 'float', 'str', 'none', 'any')
+
+
+# =====================================================================================================
+# Declaration axis: HOW the dump configuration in force for a class is determined (class-definition-time
+# pipeline: wizard base, class keywords, inner Meta, base class with inner Meta, bind_to after the definition).
+# Model: coq/model/CoreDumpConfig.v.  Declarations are JSON objects (see harness/impl/c03_decl.py).
+# =====================================================================================================
+F93 = 'F93-subclass-own-meta-overridden-by-base-meta'
+F94 = 'F94-timestamp-sticky-after-iso-format'
+XF5 = ['CAMEL', 'PASCAL', 'LISP', 'SNAKE', 'NONE']
+WIZ = ['JSONWizard', 'JSONPyWizard', 'JSONSerializable']
+ATTRS = ('xf', 'dt', 'tag_key')
+
+
+def coq_mset(m):
+    if m is None:
+        return 'None'
+    xf = '(Some %s)' % XF[m['xf']] if m.get('xf') is not None else 'None'
+    dt = '(Some %s)' % DT[m['dt']] if m.get('dt') is not None else 'None'
+    tk = '(Some %s)' % coq_str(m['tag_key']) if m.get('tag_key') is not None else 'None'
+    return '(mkMS %s %s %s)' % (xf, dt, tk)
+
+
+def coq_decl(d):
+    base = {None: 'BPlain', 'JSONWizard': 'BWizard', 'JSONSerializable': 'BWizard', 'JSONPyWizard': 'BPyWizard'}[d.get('base')]
+    inner = 'None' if d.get('inner') is None else '(Some %s)' % coq_mset(d['inner'])
+    par = d.get('parent')
+    parent = 'None' if par is None else ('(Some None)' if par.get('inner') is None else '(Some (Some %s))' % coq_mset(par['inner']))
+    return '(mkDecl %s %s %s %s [%s])' % (base, 'true' if d.get('key_case') else 'false', inner, parent,
+                                          '; '.join(coq_mset(m) for m in d.get('post') or []))
+
+
+def documented(d):
+    """The configuration a declaration DOCUMENTS (independent transcription of docs/common_use_cases/meta.rst,
+    wizard_mixins.rst, README 'JSONPyWizard'): an explicit bind_to after the definition (the latest one) beats the class's own
+    inner Meta, which beats the inner Meta inherited from its base class, which beats the default of the wizard base -
+    keys as they are for JSONPyWizard, camelCase otherwise; ISO-8601 dates; '__tag__'."""
+    def pick(attr, default):
+        for m in reversed(d.get('post') or []):
+            if m.get(attr) is not None:
+                return m[attr]
+        if d.get('inner') and d['inner'].get(attr) is not None:
+            return d['inner'][attr]
+        par = d.get('parent')
+        if par and par.get('inner') and par['inner'].get(attr) is not None:
+            return par['inner'][attr]
+        return default
+    return {'xf': pick('xf', 'NONE' if d.get('base') == 'JSONPyWizard' else 'CAMEL'),
+            'dt': pick('dt', 'ISO_FORMAT'), 'tag_key': pick('tag_key', '__tag__')}
+
+
+def all_binds(d):
+    out = []
+    if d.get('inner'): out.append(d['inner'])
+    if d.get('parent') and d['parent'].get('inner'): out.append(d['parent']['inner'])
+    return out + list(d.get('post') or [])
+
+
+def in_f93_decl(d):
+    """own inner Meta and the base class's inner Meta set the same attribute differently, no later bind_to sets it"""
+    par = d.get('parent')
+    if not (d.get('inner') and par and par.get('inner')):
+        return False
+    for a in ATTRS:
+        if any(m.get(a) is not None for m in d.get('post') or []):
+            continue
+        x, y = d['inner'].get(a), par['inner'].get(a)
+        if x is not None and y is not None and x != y:
+            return True
+    return False
+
+
+def in_f94_decl(d):
+    """some bind asks for TIMESTAMP although the documented mode is ISO_FORMAT (an explicit ISO_FORMAT overrides it)"""
+    return documented(d)['dt'] == 'ISO_FORMAT' and any(m.get('dt') == 'TIMESTAMP' for m in all_binds(d))
+
+
+def decl_region(d):
+    if in_f93_decl(d): return F93
+    if in_f94_decl(d): return F94
+    return None
+
+
+def ref_words(name):
+    """words of a field name written in snake_case or camelCase (docs/enums.py: 'my_field_name', 'myFieldName')"""
+    ws = []
+    for part in name.split('_'):
+        ws += re.findall(r'[A-Za-z][a-z0-9]*', part)
+    return ws
+
+
+def ref_key2(name, xf):
+    ws = [w.lower() for w in ref_words(name)]
+    cap = [w[:1].upper() + w[1:] for w in ws]
+    if xf == 'CAMEL': return ws[0] + ''.join(cap[1:])
+    if xf == 'PASCAL': return ''.join(cap)
+    if xf == 'LISP': return '-'.join(ws)
+    if xf == 'SNAKE': return '_'.join(ws)
+    return name
+
+
+PROBE_CLASSIFY = {('probeOne', 'probeTwo'): 'CAMEL', ('ProbeOne', 'ProbeTwo'): 'PASCAL', ('probe-one', 'probe-two'): 'LISP',
+                  ('probe_one', 'probe_two'): 'SNAKE', ('probe_one', 'probeTwo'): 'NONE'}
+
+
+def decl_has_tag(d):
+    return any((m.get('extra') or {}).get('tag') for m in all_binds(d))
+
+
+def expected_probe_items(d, oracle):
+    """documented dump of the fixed probe class of harness/impl/c03_decl.py under the documented configuration"""
+    doc = documented(d)
+    names = (['base_word'] if d.get('parent') is not None else []) + ['probe_one', 'probeTwo', 'when_at', 'stamp_utc']
+    iso = oracle['dt_iso']
+    vals = {'base_word': 7, 'probe_one': 1, 'probeTwo': 'x',
+            'when_at': oracle['date_ts'] if doc['dt'] == 'TIMESTAMP' else oracle['date_iso'],
+            'stamp_utc': oracle['dt_ts'] if doc['dt'] == 'TIMESTAMP' else (iso[:-6] + 'Z' if iso.endswith('+00:00') else iso)}
+    items = [[ref_key2(n, doc['xf']), vals[n]] for n in names]
+    if decl_has_tag(d):
+        items.append([doc['tag_key'], 'tg'])
+    return items
+
+
+def check_decl_direct(d, res):
+    """direct predicates of C03 on what the stand-alone program of a declaration printed"""
+    if res.get('err'):
+        return ['the program of the declaration failed: %s %s' % (res['err'], (res.get('msg') or '')[:200])]
+    bad = []
+    exp = expected_probe_items(d, res['oracle'])
+    if res.get('items') != exp:
+        bad.append('asdict(x) differs from the documented encoding under the configured key transform / date mode / tag key: got %s, documented %s'
+                   % (json.dumps(res.get('items'))[:300], json.dumps(exp)[:300]))
+    if not res.get('is_dict'):
+        bad.append('asdict did not return a plain dict')
+    if res.get('json') != dict(res.get('items') or []):
+        bad.append('json.dumps(asdict(x)) does not round-trip')
+    if 'to_dict' in res:
+        if res['to_dict'] != res.get('items'):
+            bad.append('to_dict differs from asdict')
+        if res.get('to_json') != res.get('json'):
+            bad.append('to_json differs from json.dumps(asdict(x))')
+        if res.get('list_to_json') != [res.get('json'), res.get('json')]:
+            bad.append('list_to_json differs from json.dumps of the dumped list')
+    if not res.get('unchanged'):
+        bad.append('instance changed by the dump')
+    return bad
+
+
+def observed_config(d, res):
+    """the text CoreDumpConfig.show_config prints, read off the implementation"""
+    xf = PROBE_CLASSIFY.get(tuple(res.get('probe') or ()), '?%s' % (res.get('probe'),))
+    items = dict(res.get('items') or [])
+    when = [v for k, v in (res.get('items') or []) if ref_words(k) and [w.lower() for w in ref_words(k)] == ['when', 'at']]
+    dt = 'TIMESTAMP' if when and isinstance(when[0], int) else 'ISO_FORMAT'
+    if decl_has_tag(d):
+        tks = [k for k, v in (res.get('items') or []) if v == 'tg']
+        tk = tks[0] if tks else '?notag'
+    else:
+        tk = res.get('tag_key_attr') or '__tag__'
+    m = res.get('meta')
+    meta = 'nometa' if m is None else '|'.join('-' if x is None else str(x) for x in m)
+    return '%s|%s|%s#%s' % (xf, dt, tk, meta)
+
+
+def decl_form(d):
+    """label of the declaration FORM (what is declared where), settings abstracted"""
+    def what(m):
+        return 'meta[%s]' % ','.join(a for a in ATTRS if m.get(a) is not None) if m is not None else '-'
+    par = d.get('parent')
+    return '%s%s|inner:%s|parent:%s|post:%d' % (d.get('base') or 'plain', '+key_case' if d.get('key_case') else '', what(d.get('inner')),
+                                                'none' if par is None else what(par.get('inner')),
+                                                len([m for m in d.get('post') or [] if any(m.get(a) is not None for a in ATTRS)]))
+
+
+def mk_bind(xf=None, dt=None, tag_key=None, via='DumpMeta', kw=None, extra=None):
+    m = {'xf': xf, 'dt': dt, 'tag_key': tag_key, 'via': via}
+    if via == 'DumpMeta':
+        m['kw'] = kw or 'key_transform'
+    if extra:
+        m['extra'] = extra
+    return m
+
+
+def rand_bind(r, p=(0.55, 0.3, 0.25)):
+    return mk_bind(xf=r.choice(XF5) if r.random() < p[0] else None,
+                   dt=r.choice(['ISO_FORMAT', 'TIMESTAMP']) if r.random() < p[1] else None,
+                   tag_key=r.choice(['kind', 'type', '_t', 'tag key']) if r.random() < p[2] else None,
+                   via=r.choice(['DumpMeta', 'DumpMeta', 'LoadMeta']), kw=r.choice(['key_transform', 'key_transform_with_dump']),
+                   extra=r.choice([None, None, None, {'skip_defaults': False}, {'raise_on_unknown_json_key': False}]))
+
+
+def dress(d, i, r=None, tag=True):
+    """spelling dimensions (how values / the Meta class are written) and the tag that makes the tag key observable"""
+    d.setdefault('key_case', None); d.setdefault('inner', None); d.setdefault('parent', None); d.setdefault('post', [])
+    d['spell'] = ['upper', 'lower', 'enum', 'title'][i % 4]
+    d['meta_name'] = ['_', 'Meta', 'Config'][i % 3]
+    d['meta_base'] = WIZ[(i // 2) % 3] if d.get('base') else None
+    if tag:
+        d['post'] = list(d['post']) + [mk_bind(via='LoadMeta', extra={'tag': 'tg'})]
+    return d
+
+
+def rand_decl(r):
+    base = r.choice([None, 'JSONWizard', 'JSONWizard', 'JSONPyWizard', 'JSONPyWizard', 'JSONSerializable'])
+    d = {'base': base, 'key_case': None, 'inner': None, 'parent': None, 'post': []}
+    if base:
+        d['key_case'] = r.choice([None, None, None, 'CAMEL', 'SNAKE', 'PASCAL', 'KEBAB'])
+        if r.random() < 0.65:
+            d['inner'] = rand_bind(r)
+        if r.random() < 0.4:
+            d['parent'] = {'inner': rand_bind(r) if r.random() < 0.7 else None}
+    elif r.random() < 0.2:
+        d['parent'] = {'inner': None}
+    d['post'] = [rand_bind(r) for _ in range(r.choice([0, 0, 1, 1, 2, 3]))]
+    return d
+
+
+def gen_decls(ctx):
+    """stream A: systematic enumeration of declaration forms x settings, then a random product sample"""
+    out = []
+    add = lambda d, why: out.append((d, why))
+    for base in [None] + WIZ:
+        add({'base': base}, 'no-config')
+        for x in XF5:
+            add({'base': base, 'post': [mk_bind(xf=x)]}, 'post-bind')
+        add({'base': base, 'post': [mk_bind(xf='LISP', via='LoadMeta')]}, 'post-bind-loadmeta')
+        add({'base': base, 'post': [mk_bind(dt='TIMESTAMP')]}, 'post-bind-dt')
+        add({'base': base, 'post': [mk_bind(xf='PASCAL'), mk_bind(xf='SNAKE')]}, 'post-bind-twice')
+        add({'base': base, 'post': [mk_bind(xf='PASCAL'), mk_bind(extra={'skip_defaults': False})]}, 'post-bind-then-unrelated')
+        add({'base': base, 'post': [mk_bind(dt='ISO_FORMAT'), mk_bind(dt='TIMESTAMP', tag_key='kind')]}, 'post-bind-iso-then-timestamp')
+    for base in WIZ:
+        for x in XF5:
+            add({'base': base, 'inner': mk_bind(xf=x)}, 'inner-meta')
+            add({'base': base, 'parent': {'inner': mk_bind(xf=x)}}, 'inherited-meta')
+        add({'base': base, 'inner': mk_bind()}, 'inner-meta-empty')
+        add({'base': base, 'inner': mk_bind(dt='TIMESTAMP')}, 'inner-meta-dt')
+        add({'base': base, 'inner': mk_bind(tag_key='kind', extra={'skip_defaults': False})}, 'inner-meta-tag-key')
+        add({'base': base, 'parent': {'inner': None}}, 'parent-without-meta')
+        add({'base': base, 'parent': {'inner': mk_bind(dt='TIMESTAMP', tag_key='type')}, 'inner': mk_bind(xf='LISP')}, 'inherited+own-disjoint')
+        add({'base': base, 'parent': {'inner': mk_bind(xf='PASCAL')}, 'inner': mk_bind(xf='PASCAL', tag_key='kind')}, 'inherited+own-equal')
+        add({'base': base, 'parent': {'inner': mk_bind(xf='PASCAL')}, 'inner': mk_bind(xf='SNAKE'), 'post': [mk_bind(xf='LISP')]}, 'inherited+own+post')
+        for kc in ('CAMEL', 'SNAKE', 'PASCAL', 'KEBAB'):
+            add({'base': base, 'key_case': kc}, 'key-case')
+            add({'base': base, 'key_case': kc, 'inner': mk_bind(xf=XF5[(len(out)) % 5])}, 'key-case+inner-meta')
+        for a, b in (('LISP', 'PASCAL'), ('NONE', 'CAMEL'), ('SNAKE', 'NONE'), ('CAMEL', 'LISP')):
+            add({'base': base, 'inner': mk_bind(xf=a), 'post': [mk_bind(xf=b)]}, 'inner-meta-then-post-bind')
+    # regions of the open findings (classified, not reported)
+    for base in WIZ[:2]:
+        add({'base': base, 'parent': {'inner': mk_bind(xf='LISP')}, 'inner': mk_bind(xf='SNAKE')}, 'region-F93')
+        add({'base': base, 'parent': {'inner': mk_bind(tag_key='type')}, 'inner': mk_bind(tag_key='kind')}, 'region-F93')
+        add({'base': base, 'inner': mk_bind(dt='TIMESTAMP'), 'post': [mk_bind(dt='ISO_FORMAT')]}, 'region-F94')
+    add({'base': None, 'post': [mk_bind(dt='TIMESTAMP'), mk_bind(dt='ISO_FORMAT')]}, 'region-F94')
+    r = ctx.sub_rng('decl')
+    n = 110 if ctx.tier == 'quick' else 1500
+    k = 0
+    while k < n:
+        d = rand_decl(r)
+        if decl_region(d) and r.random() < 0.85:
+            continue
+        add(d, 'random')
+        k += 1
+    res = []
+    for i, (d, why) in enumerate(out):
+        res.append((dress(d, i + ctx.seed, tag=(i % 5 != 4)), why))
+    return res
+
+
+def realise_decl(c, r, index):
+    """stream B: declare the ROOT of a generated class model through a declaration form that documents the case's configuration
+    (or, rarely, falls into a finding region); c['cfg'] becomes the DOCUMENTED configuration of the declaration"""
+    cfg = c['cfg']
+    want = {a: cfg.get(a) for a in ATTRS if cfg.get(a) is not None}
+    extra = {'auto_assign_tags': True} if cfg.get('auto_tags') else None
+    style = r.choice(['inner', 'inner', 'post', 'post', 'post-split', 'inner+post', 'parent', 'parent+own'])
+    base = r.choice(WIZ) if style != 'post' else r.choice([None] + WIZ)
+    if style == 'post-split' and r.random() < 0.3:
+        base = None
+    d = {'base': base, 'key_case': None, 'inner': None, 'parent': None, 'post': []}
+    other = lambda x: r.choice([y for y in XF5 if y != x])
+    if style == 'inner':
+        d['inner'] = mk_bind(extra=extra, **want)
+    elif style == 'post':
+        d['post'] = [mk_bind(extra=extra, via=r.choice(['DumpMeta', 'LoadMeta']), kw=r.choice(['key_transform', 'key_transform_with_dump']), **want)]
+        if base and r.random() < 0.3:
+            d['inner'] = mk_bind()
+    elif style == 'post-split':
+        ks = list(want)
+        r.shuffle(ks)
+        h = r.randrange(len(ks) + 1)
+        d['post'] = [mk_bind(**{a: want[a] for a in ks[:h]}), mk_bind(extra=extra, via='LoadMeta', **{a: want[a] for a in ks[h:]})]
+    elif style == 'inner+post':
+        dis = {}
+        if 'xf' in want: dis['xf'] = other(want['xf'])
+        if want.get('dt') == 'TIMESTAMP': dis['dt'] = 'ISO_FORMAT'
+        if 'tag_key' in want: dis['tag_key'] = 'overridden'
+        d['inner'] = mk_bind(**dis)
+        d['post'] = [mk_bind(extra=extra, **want)]
+    elif style == 'parent':
+        d['parent'] = {'inner': mk_bind(extra=extra, **want)}
+        if r.random() < 0.4:
+            d['inner'] = mk_bind()
+    else:
+        ks = list(want)
+        r.shuffle(ks)
+        h = r.randrange(len(ks) + 1)
+        d['parent'] = {'inner': mk_bind(**{a: want[a] for a in ks[:h]})}
+        d['inner'] = mk_bind(extra=extra, **{a: want[a] for a in ks[h:]})
+        if r.random() < 0.12 and 'xf' in want:
+            # region of F93: the base class's inner Meta names another transform than the class's own
+            d['parent']['inner']['xf'], d['inner']['xf'] = other(want['xf']), want['xf']
+    if base and not extra and r.random() < 0.25:
+        d['key_case'] = r.choice(['CAMEL', 'SNAKE', 'PASCAL'])
+    if d['parent'] is not None:
+        d['parent_fields'] = r.randrange(len(c['root']['fields']))
+    if c['root'].get('tag') is not None:
+        d['post'] = [mk_bind(via='LoadMeta', extra={'tag': c['root']['tag']})] + d['post']
+    d['spell'] = ['upper', 'lower', 'enum', 'title'][index % 4]
+    d['meta_name'] = ['_', 'Meta', 'Config'][index % 3]
+    d['meta_base'] = WIZ[(index // 2) % 3] if base else None
+    doc = documented(d)
+    c['decl'] = d
+    c['cfg'] = {'xf': doc['xf'], 'dt': doc['dt'], 'tag_key': doc['tag_key'] if doc['tag_key'] != '__tag__' else None}
+    if cfg.get('auto_tags'):
+        c['cfg']['auto_tags'] = True
+    c['wizard'] = base is not None
+    c['root']['bases'] = []
+    c['root']['name'] = '%sd%d' % (c['root']['name'], index)          # META_INITIALIZER is keyed by qualname: unique per interpreter
+    c['src'] += '+decl'
+    return c
 
 
 def make_cases(ctx):
@@ -224,11 +571,12 @@ def make_cases(ctx):
         cases.append({'root': root, 'value': val, 'cfg': {'xf': r4.choice(XFS), 'dt': None}, 'wizard': j % 2 == 0, 'labels': {}, 'src': 'catchall',
                       'catchall_items': {'v': 'dict', 'k': 'dict', 'kvs': items} if items or r4.random() < 0.5 else None, 'nomodel': True})
     rh = ctx.sub_rng('history')
-    return [finish_case(c, rh) for c in cases]
+    rd = ctx.sub_rng('declaxis')
+    return [finish_case(c, rh, rd, i) for i, c in enumerate(cases)]
 
 
 def strip(c):
-    return {k: c[k] for k in ('root', 'value', 'cfg', 'wizard', 'pre_dump', 'catchall_items', 'nomodel', 'subclasses', 'wild_names') if k in c}
+    return {k: c[k] for k in ('root', 'value', 'cfg', 'wizard', 'pre_dump', 'catchall_items', 'nomodel', 'subclasses', 'wild_names', 'decl') if k in c}
 
 
 def has_nested_data(ty, top=True):
@@ -261,7 +609,7 @@ def has_wild_names(ty):
     return w or any(has_wild_names(x) for x in subs)
 
 
-def finish_case(c, r):
+def finish_case(c, r, rd=None, index=0):
     """declaration-style and history axes shared by every stream: auto tags need the root setting; a class
     model with nested dataclasses is, half of the time, run with the history "members dumped alone first".
     (Only under the default key spelling: a member dumped alone caches ITS key spelling - open finding F10.)"""
@@ -271,6 +619,10 @@ def finish_case(c, r):
         c['pre_dump'] = True
         if c['cfg'].get('xf') not in (None, 'CAMEL'):
             c['cfg']['xf'] = r.choice([None, 'CAMEL'])
+    # DECLARATION axis: 40 % of the class models without a history get their configuration through a declaration form
+    # (inner Meta / wizard base / base class with inner Meta / bind_to statements) instead of one LoadMeta(...).bind_to
+    if rd is not None and not c.get('pre_dump') and c['src'] in ('systematic', 'random', 'random+subclasses') and rd.random() < 0.4:
+        realise_decl(c, rd, index)
     if has_wild_names(c['root']) and (c['cfg'].get('xf') or 'CAMEL') != 'NONE':
         # leading/trailing underscores, capitals: outside the documented domain of the key transforms; there the
         # reference takes the KEY spelling from the library's conversion function (model == implementation is what is
@@ -309,6 +661,79 @@ def check_direct(c, res):
     return bad
 
 
+def live_pipeline_prelude(ctx):
+    """`pl_live`: the pipeline parameter of CoreDumpConfig.v read from the tree under test by THIS run's own call of the
+    translator harness/tables/CoreDumpBindOrder.py (the text it prints is what coq/gen/T_CoreDumpBindOrder.v holds; evaluating
+    from the text keeps the correspondence independent of other runs rewriting the shared gen/ file while this one waits for
+    the build lock).  Translator failing closed -> pl_live = None -> the model prints an error, never a pass."""
+    import subprocess, os
+    from lib import framework as fw
+    try:
+        p = subprocess.run([fw.PY, os.path.join(fw.VERIF, 'harness', 'tables', 'CoreDumpBindOrder.py')], capture_output=True, text=True,
+                           timeout=120, env=fw.impl_env())
+        txt = p.stdout if p.returncode == 0 else ''
+    except subprocess.TimeoutExpired:
+        txt = ''
+    body = {}
+    for name in ('init_subclass_steps_v0', 'meta_initializer_steps_v0', 'pywizard_key_transform_v0', 'default_dump_transform_v0', 'default_tag_key_v0'):
+        m = re.search(r'Definition %s : [^:=]+ := (.*?)\.\n' % name, txt)
+        if m:
+            body[name] = m.group(1)
+    if len(body) != 5:
+        ctx.broken_tie('translator CoreDumpBindOrder failed closed on the tree under test (bind order of __init_subclass__ unreadable)')
+        return 'Definition pl_live : option pipeline := None.\n'
+    return ('Definition pl_live : option pipeline := pipeline_of_tables (%s) (%s) (%s) (%s) (%s).\n'
+            % (body['init_subclass_steps_v0'], body['meta_initializer_steps_v0'], body['pywizard_key_transform_v0'],
+               body['default_dump_transform_v0'], body['default_tag_key_v0']))
+
+
+def run_declarations(ctx, resolved, prelude):
+    """Stream A: every declaration form x setting in its OWN fresh interpreter (class source text at module level).
+    Correspondence: configuration in force (dumper's transform, date mode, tag key, stored Meta) == CoreDumpConfig.show_config.
+    Direct predicate: the dump of the probe class == the documented encoding under the DOCUMENTED configuration."""
+    decls = gen_decls(ctx)
+    progs = []
+    B = 200
+    for i in range(0, len(decls), B):
+        progs.extend(ctx.impl('c03', {'decl_programs': [d for d, _ in decls[i:i + B]], 'jobs': 8})['programs'])
+    exprs = ['show_config pl_live %s' % coq_decl(d) for d, _ in decls]
+    model = None
+    try:
+        model = ctx.coq(exprs, imports=['CoreDumpConfig'], prelude=prelude, tag='declcfg')
+    except Exception as e:
+        ctx.broken_tie('model evaluation of the configuration pipeline failed: %s' % str(e)[:800])
+    n_dis = 0
+    for i, ((d, why), res) in enumerate(zip(decls, progs)):
+        form = decl_form(d)
+        doc = documented(d)
+        ctx.count(1, key='decl|%s|%s' % (form, json.dumps([d.get('inner'), d.get('parent'), d.get('post'), d.get('key_case'), d.get('spell')], sort_keys=True)[:300]),
+                  nontrivial=bool(all_binds(d)) or d.get('base') is not None)
+        ctx.hist('declaration_form', form)
+        ctx.hist('declaration_source', why)
+        ctx.hist('declared_config', '%s/%s/%s' % (doc['xf'], doc['dt'], 'tag_key' if doc['tag_key'] != '__tag__' else '-'))
+        ctx.hist('declaration_spelling', '%s/%s' % (d.get('spell'), d.get('meta_name')))
+        bad = check_decl_direct(d, res)
+        if bad:
+            reg = decl_region(d)
+            if reg and ctx.is_open_region(reg) and reg not in resolved and not res.get('err') and len(bad) == 1 and bad[0].startswith('asdict(x) differs'):
+                ctx.hist('known_region', reg)
+            else:
+                ctx.violation('C03 direct predicate fails for a declared class: %s' % '; '.join(bad)[:600], {'kind': 'decl', 'decl': d, 'source': res.get('src')})
+        if model is not None and not res.get('err'):
+            ctx.traces_validated += 1
+            obs = observed_config(d, res)
+            if model[i] != obs:
+                n_dis += 1
+                ctx.disagreements_checked += 1
+                if n_dis <= 5:
+                    ctx.broken_tie('configuration pipeline model and implementation disagree on the configuration in force',
+                                   {'decl': d, 'impl': obs, 'model': model[i], 'source': res.get('src')})
+        if i < 2 or (why == 'random' and len(ctx.samples) < 3):
+            ctx.sample({'declaration': form, 'documented': doc, 'impl_config': observed_config(d, res) if not res.get('err') else res.get('err'),
+                        'model_config': model[i] if model else None, 'dump': res.get('items')})
+    ctx.notes.append('declarations=%d (one interpreter each) config_disagreements=%d' % (len(decls), n_dis))
+
+
 def run(ctx):
     # ---- listed findings: replay witnesses --------------------------------
     resolved = set()
@@ -321,6 +746,16 @@ def run(ctx):
             if not fails:
                 resolved.add(f['id'])
             ctx.known_finding(f['id'], still_fails=fails)
+        elif w and w.get('kind') == 'decl':
+            res = ctx.impl('c03', {'decl_programs': [w['decl']]})['programs'][0]
+            ctx.count(1, key='witness:' + f['id'])
+            fails = bool(check_decl_direct(w['decl'], res))
+            if not fails:
+                resolved.add(f['id'])
+            ctx.known_finding(f['id'], still_fails=fails)
+
+    prelude = live_pipeline_prelude(ctx)
+    run_declarations(ctx, resolved, prelude)
 
     cases = make_cases(ctx)
     B = 400
@@ -332,13 +767,19 @@ def run(ctx):
     exprs, idx = [], []
     for i, (c, res) in enumerate(zip(cases, results)):
         if 'coq_v' in res:
-            body = 'show_res (dump dump_hooks_v0 %s %s)' % (coq_cfg(c['cfg']), res['coq_v'])
+            if c.get('decl') is not None:
+                body = 'show_res (dump_decl dump_hooks_v0 pl_live %s %s)' % (coq_decl(c['decl']), res['coq_v'])
+            else:
+                body = 'show_res (dump dump_hooks_v0 %s %s)' % (coq_cfg(c['cfg']), res['coq_v'])
             exprs.append(''.join('let %s := %s in ' % (n, t) for n, t in res['lets']) + body)
             idx.append(i)
     model = {}
     try:
-        from props.c05 import coq_eval_sharded
-        outs = coq_eval_sharded(ctx, exprs, ['CoreDump', 'T_CoreDumpHooks'], shard=50)     # <= 6 coqc processes: memory
+        import os
+        from lib import coqrun
+        # <= 6 coqc processes (memory), 50 expressions each: the expressions carry large literal terms
+        outs = coqrun.coq_eval(exprs, ['CoreDump', 'T_CoreDumpHooks', 'CoreDumpConfig'], os.path.join(ctx.workdir, 'cases'),
+                               prelude=prelude, jobs=6, timeout=900, shard=50)
         model = dict(zip(idx, outs))
     except Exception as e:
         ctx.broken_tie('model evaluation failed: %s' % str(e)[:800])
@@ -359,12 +800,17 @@ def run(ctx):
         ctx.hist('config', '%s/%s' % (c['cfg'].get('xf'), c['cfg'].get('dt')))
         ctx.hist('source', c['src'])
         ctx.hist('history', 'members-alone-first' if c.get('pre_dump') else 'owner-first')
+        if c.get('decl') is not None:
+            ctx.hist('declaration_form(class models)', decl_form(c['decl']))
         bad = check_direct(c, res)
         if subminute(c['value']):
             ctx.hist('subminute_offset_cases', c['src'])
         if bad:
             if in_f57(c) and ctx.is_open_region(F57) and bad == ['asdict(x) differs from the documented encoding']:
                 ctx.hist('known_region', F57)
+            elif c.get('decl') is not None and decl_region(c['decl']) and ctx.is_open_region(decl_region(c['decl'])) \
+                    and decl_region(c['decl']) not in resolved and bad == ['asdict(x) differs from the documented encoding']:
+                ctx.hist('known_region', decl_region(c['decl']))
             else:
                 ctx.violation('C03 direct predicate fails: %s' % '; '.join(bad), {'kind': 'case', 'case': strip(c)})
         if i in model:
@@ -388,6 +834,14 @@ def replay(ctx, obj):
         res = ctx.impl('c03', {'cases': [obj['case']]})['cases'][0]
         bad = check_direct(obj['case'], res)
         print('asdict -> %s' % (res.get('show_dump') or res.get('dump_err') or res.get('setup_err')))
+        print('direct predicates: %s' % ('; '.join(bad) if bad else 'all hold'))
+        return not bad
+    if obj.get('kind') == 'decl':
+        res = ctx.impl('c03', {'decl_programs': [obj['decl']]})['programs'][0]
+        bad = check_decl_direct(obj['decl'], res)
+        print(res.get('src', ''))
+        print('asdict -> %s' % (res.get('items') if not res.get('err') else res))
+        print('documented configuration: %s' % json.dumps(documented(obj['decl'])))
         print('direct predicates: %s' % ('; '.join(bad) if bad else 'all hold'))
         return not bad
     print('replay object names a broken tie, not an input: %s' % json.dumps(obj)[:1500])
